@@ -411,7 +411,31 @@ def c14_9(ctx):
     return [ctx.ok(spec, "a mnemonic of num_bits is produced for every extra_entropy bit length evaluated (%d cells)" % cells, fn, mod, key="entropy-mask")]
 
 
+def c14_10(ctx):
+    """MEMO: no method of the modules this property is anchored in answers from a value remembered from an earlier argument or an
+    earlier state of the object (confirmed caches of the reference tree: sa/memo.py CONFIRMED_CACHES)"""
+    from sa.memo import cache_obligation
+    return cache_obligation(ctx, ["mnemonic", "hd", "helper", "pbkdf2"], "a seed or mnemonic computed for one passphrase / entropy would be returned for another")
+
+
+def c14_11(ctx):
+    """SET-ORDER: no ordered result (list, serialisation, yielded sequence) of the modules this property is anchored in takes its
+    order from the iteration order of a set"""
+    from sa.setorder import setorder_obligation
+    return setorder_obligation(ctx, ["mnemonic", "hd", "helper", "pbkdf2"], "the same inputs give different output from run to run")
+
+
+def c14_12(ctx):
+    """SHARED necessary conditions over the modules this property is anchored in: FALSY-DEFAULT, MUTABLE-DEFAULT, IDENTITY, ALIAS,
+    CTOR-FORWARD (sa/shared.py)"""
+    from sa.shared import shared_obligations
+    return shared_obligations(ctx, ["mnemonic", "hd", "helper", "pbkdf2"], "the result would depend on something other than the arguments and the object's current state")
+
+
 OBLIGATIONS = [
+    ("C14.12", "SHARED", c14_12),
+    ("C14.11", "SET-ORDER", c14_11),
+    ("C14.10", "MEMO", c14_10),
     ("C14.9", "CELLS entropy mask", c14_9),
     ("C14.8", "CTOR-FORWARD", c14_8),
     ("C14.1", "GUARD", c14_1),
